@@ -40,6 +40,15 @@ def check_case(ctx, case):
         ctx.note("skipped-not-unique")
         return
     up, down = P.signature
+    if case.get("sibling"):
+        # a type with the same signature on another cutter or in the other role exists, and was used first
+        try:
+            S = asm.cls_by_name(case["sibling"])
+            S.structure()
+            T.evaluate(S, wd)
+        except Exception:  # noqa
+            pass
+        ctx.note("sibling-type-first")
     # the verdict must not depend on which classes were asked before: ask the signature-free ancestors of
     # the part class first (the order in which a user would naturally characterise a record)
     for anc in P.__mro__[1:]:
@@ -136,6 +145,25 @@ def overhang_for(rng, sig, mode, pool):
     return "".join(s)
 
 
+_by_k = {}
+
+
+def sibling_of(rng, cls):
+    """a signature-typed class with the same signature as `cls` over another cutter leaving overhangs of the same
+    length (or the same cutter in the other role)"""
+    if not _by_k:
+        for e in boot.supported_enzymes():
+            _by_k.setdefault(abs(e.ovhg), []).append(e)
+    up, down = cls.signature
+    own = "V" if issubclass(cls, boot.AbstractVector) else "M"
+    while True:
+        enz = rng.choice(_by_k.get(abs(cls.cutter.ovhg)) or [cls.cutter])
+        kind = rng.choice("MV")
+        if (str(enz), kind) != (str(cls.cutter), own):
+            break
+    return "part:{}:{}:{}:{}".format(kind, str(enz), up, down)
+
+
 def make_word(rng, cls, u, d):
     enz = cls.cutter
     try:
@@ -155,12 +183,13 @@ def run(ctx):
     per = ctx.budget(10, 400)
     for cls in derived:
         up, down = cls.signature
-        for _ in range(per):
+        for i in range(per):
             mode = rng.randrange(4)
             wd = make_word(rng, cls, overhang_for(rng, up, mode, pool), overhang_for(rng, down, rng.choice([0, mode]), pool))
             if wd is None:
                 continue
-            ctx.guard(check_case, {"cls": asm.cls_name(cls), "word": gen.rot(wd, rng.randrange(len(wd)))})
+            ctx.guard(check_case, {"cls": asm.cls_name(cls), "word": gen.rot(wd, rng.randrange(len(wd))),
+                                   "sibling": sibling_of(rng, cls) if i == 0 or rng.random() < 0.6 else None})
     for enz in asm.pick_enzymes(rng, ctx.budget(200, 6000)):
         k = abs(enz.ovhg)
         alpha = "ACGTNRYSWKMBDHV" if rng.random() < 0.7 else "N"
@@ -173,7 +202,8 @@ def run(ctx):
         wd = make_word(rng, cls, overhang_for(rng, up, mode, []), overhang_for(rng, down, rng.choice([0, mode]), []))
         if wd is None:
             continue
-        ctx.guard(check_case, {"cls": cname, "word": gen.rot(wd, rng.randrange(len(wd)))})
+        ctx.guard(check_case, {"cls": cname, "word": gen.rot(wd, rng.randrange(len(wd))),
+                               "sibling": sibling_of(rng, cls)})
     # characterize over the kit part families
     bases = [c for c in (getattr(m, n, None) for m in boot.kit_modules().values() for n in dir(m))
              if isinstance(c, type) and issubclass(c, boot.AbstractPart) and c.__subclasses__()
